@@ -62,8 +62,8 @@ End Imports.
 (* ------------------------------------------------------------------ the regenerated obligation *)
 Definition doc_file_facts : list (string * string) := [
   ("rulesRunner.collectImports", "func(f *ast.File) :: rr.filterParams.imports = make(map[string]struct{}, len(f.Imports)) ;; for _, spec := range f.Imports { s, err := strconv.Unquote(spec.Path.Value) if err != nil { continue } rr.filterParams.imports[s] = struct{}{} }");
-  ("rulesRunner.run.setup", "rr.filename = rr.ctx.Fset.Position(f.Pos()).Filename ;; rr.filterParams.filename = rr.filename ;; rr.collectImports(f)");
-  ("filterParams.imports/filename", "ir_loader.go: l.filename = filename ;; runner.go: rr.filename = rr.ctx.Fset.Position(f.Pos()).Filename ;; runner.go: rr.filterParams.filename = rr.filename ;; runner.go: rr.filterParams.imports = make(map[string]struct{}, len(f.Imports)) ;; runner.go: rr.filterParams.imports[s] = struct{}{}")
+  ("rulesRunner.run.setup", "rr.filename = rr.ctx.Fset.PositionFor(f.Pos(), false).Filename ;; rr.filterParams.filename = rr.ctx.Fset.Position(f.Pos()).Filename ;; rr.collectImports(f)");
+  ("filterParams.imports/filename", "ir_loader.go: l.filename = filename ;; runner.go: rr.filename = rr.ctx.Fset.PositionFor(f.Pos(), false).Filename ;; runner.go: rr.filterParams.filename = rr.ctx.Fset.Position(f.Pos()).Filename ;; runner.go: rr.filterParams.imports = make(map[string]struct{}, len(f.Imports)) ;; runner.go: rr.filterParams.imports[s] = struct{}{}")
 ].
 
 Definition file_facts_okb (gen : list (string * string)) : bool :=
